@@ -40,7 +40,7 @@ func atoi(s string, def int) int {
 // remote; "in": the remote dials corebgp. Returns nil if it could not get there.
 func (p *Peer) bring(dir, state string, remoteHold uint16, rid uint32) *Conn {
 	var c *Conn
-	from := p.env.tr.len()
+	from := p.mark
 	if dir == "out" {
 		c = p.remote.accept(stepWait)
 	} else {
@@ -55,7 +55,7 @@ func (p *Peer) bring(dir, state string, remoteHold uint16, rid uint32) *Conn {
 	if p.waitEv(from, stepWait, "log.t", dir, "*", "openSent") < 0 || state == "openSent" {
 		return c
 	}
-	c.send(wire.Open(remoteAS, remoteHold, rid))
+	c.send(wire.Open(remoteAS, remoteHold, rid, wire.Cap{Code: 77, Val: []byte(c.id)}))
 	if len(c.waitMsgs(2, stepWait)) < 2 {
 		return c
 	}
@@ -74,7 +74,7 @@ func stimulus(name string, r *rand.Rand) []byte {
 	}
 	switch name {
 	case "open":
-		return wire.Open(remoteAS, 90, remoteID)
+		return wire.Open(remoteAS, 90, remoteID, wire.Cap{Code: 77, Val: []byte("x")})
 	case "update":
 		return wire.Update([]byte{0, 0, 0, 0})
 	case "ka":
